@@ -20,6 +20,10 @@ def leaf_values(rng, r, style):
     elif style == "nonpos-with-zero":
         a = -np.abs(a)
         a[r.randint(0, 256), r.randint(0, 256)] = 0.0
+    elif style == "all-negative":
+        a = -np.abs(a) - 0.125
+    elif style == "all-positive":
+        a = np.abs(a) + 0.125
     elif style == "holes":
         a[r.rand(256, 256) < 0.4] = np.nan
     elif style == "mostly-nan":
@@ -28,6 +32,21 @@ def leaf_values(rng, r, style):
     elif style == "all-nan":
         a[:] = np.nan
     return a
+
+
+def _builder_range(base, depth, parallel):
+    """Builder.cascade on an existing FITS pyramid: the range it records in the image set"""
+    import toasty.par_util
+    toasty.par_util.SHOW_INFORMATIONAL_MESSAGES = False
+    from toasty.pyramid import PyramidIO
+    from toasty.builder import Builder
+    pio = PyramidIO(base, default_format="fits")
+    b = Builder(pio)
+    b.imgset.tile_levels = depth
+    with warnings.catch_warnings():
+        warnings.simplefilter("ignore")
+        b.cascade(parallel=parallel)
+    return float(b.imgset.data_min), float(b.imgset.data_max)
 
 
 def tree_tokens(depth, leaves, lv=0, x=0, y=0):
@@ -62,8 +81,8 @@ def main():
     from toasty.pyramid import PyramidIO, Pos
     from toasty.builder import Builder
     rng = h.rng
-    h.rule = ("FITS pyramids of depth 1-3 with sparse leaves; leaf styles: plain, holes, mostly-NaN, all-NaN, non-negative with an exact 0 minimum, non-positive with an exact 0 maximum; "
-              "leaves written once (write_image) or built up by several update_image passes that extend the range; cascades serial and with 3 workers; "
+    h.rule = ("FITS pyramids of depth 1-3 with sparse leaves; leaf styles: plain, holes, mostly-NaN, all-NaN, non-negative with an exact 0 minimum, non-positive with an exact 0 maximum, strictly negative, strictly positive; "
+              "leaves written once (write_image) or built up by several update_image passes that extend the range; cascades serial and with 3 workers; Builder.cascade with 1 and 2 workers for the image-set range; "
               "every header compared with the finite range of the leaf values beneath; non-trivial = pyramid with a missing/all-NaN leaf or a repeated update; distinct by (depth, leaf set, styles, writer)")
     root = tempfile.mkdtemp(prefix="vfc14_")
     lines, py = [], []
@@ -77,7 +96,7 @@ def main():
             for x in range(2 ** depth):
                 for y in range(2 ** depth):
                     if rng.random() < 0.7:
-                        st = rng.choice(["plain", "holes", "mostly-nan", "all-nan", "nonneg-with-zero", "nonpos-with-zero"])
+                        st = rng.choice(["plain", "holes", "mostly-nan", "all-nan", "nonneg-with-zero", "nonpos-with-zero", "all-negative", "all-positive"])
                         leaves[(x, y)] = leaf_values(rng, r, st)
                         styles[(x, y)] = st
             if not any(np.isfinite(a).any() for a in leaves.values()):
@@ -128,25 +147,23 @@ def main():
                         bad = bad or (f"tile ({lv},{x},{y}) records DATAMIN/DATAMAX = ({hmin}, {hmax}); the finite leaf values beneath it span "
                                       f"({float(vals.min())}, {float(vals.max())})")
                 if bad:
-                    key = "update" if writer == "update" else ("zero" if any(s.endswith("zero") for s in styles.values()) else "plain")
+                    key = "update" if writer == "update" else ("zero" if any(s.endswith("zero") for s in styles.values()) else "signed" if any(s.startswith("all-neg") or s.startswith("all-pos") for s in styles.values()) else "plain")
                     h.violation(f"range:{key}", f"FITS pyramid depth {depth}, leaves by {writer}, parallel={par}: {bad}",
                                 input={"depth": depth, "writer": writer, "styles": {str(k): v for k, v in styles.items()}, "parallel": par}, observed=bad)
                 if par == 1:
                     lines.append("range " + " ".join(tree_tokens(depth, leaves)))
                     py.append(" ".join(got))
-                    # the image set gets the root's range
-                    try:
-                        b = Builder(pio)
-                        b.imgset.tile_levels = depth
-                        with warnings.catch_warnings():
-                            warnings.simplefilter("ignore")
-                            b.cascade(parallel=1)
-                        allv = np.concatenate([a[np.isfinite(a)] for a in leaves.values()])
-                        if np.float32(b.imgset.data_min) != np.float32(allv.min()) or np.float32(b.imgset.data_max) != np.float32(allv.max()):
-                            h.violation("imageset", f"Builder.cascade recorded data range ({b.imgset.data_min}, {b.imgset.data_max}); the leaves span ({float(allv.min())}, {float(allv.max())})",
-                                        input={"depth": depth, "writer": writer})
-                    except Exception as e:
-                        h.violation("imageset:crash", f"Builder.cascade raised {type(e).__name__}: {e}", input={"depth": depth})
+                    # the image set gets the root's range, whatever the number of workers of Builder.cascade
+                    from .common import run_isolated
+                    allv = np.concatenate([a[np.isfinite(a)] for a in leaves.values()])
+                    for bpar in ((1, 2) if ci % 3 == 0 else (1,)):
+                        stb, val = run_isolated(_builder_range, (base, depth, bpar), 120)
+                        h.count("builder", f"par{bpar}")
+                        if stb != "ok":
+                            h.violation("imageset:crash", f"Builder.cascade(parallel={bpar}) {stb}: {val}", input={"depth": depth, "parallel": bpar})
+                        elif np.float32(val[0]) != np.float32(allv.min()) or np.float32(val[1]) != np.float32(allv.max()):
+                            h.violation(f"imageset:par{bpar}", f"Builder.cascade(parallel={bpar}) recorded data range ({val[0]}, {val[1]}); the leaves span ({float(allv.min())}, {float(allv.max())})",
+                                        input={"depth": depth, "writer": writer, "parallel": bpar})
                 shutil.rmtree(base, ignore_errors=True)
             nontriv = len(leaves) < 4 ** depth or "all-nan" in styles.values() or writer == "update"
             h.case((depth, tuple(sorted(styles.items())), writer) if nontriv else None)
